@@ -44,6 +44,9 @@ class IllConditioned(Exception):
 def step_filter(boxes, shape, thr, exact):
     """clip-then-threshold in pixel space (the property text), boxes = (pixel box, payload)"""
     out = []
+    # float arithmetic is exact only while EVERY frame the boxes are normalised by is a power of two: a crop or
+    # pad inside the pipeline changes the frame
+    exact = exact and all(n > 0 and n & (n - 1) == 0 for n in shape)
     for b, pay in boxes:
         cb = geom.clip_box(b, shape)
         w, h, d = cb[3] - cb[0], cb[4] - cb[1], cb[5] - cb[2]
@@ -109,6 +112,7 @@ def check_expected(case, viol, res, shape, specs, fmt, thr, exact):
                 return
             cur = [(geom.lat_box(lat, b), pay) for b, pay in cur]
             cur_shape = r1['image'].shape[:3]
+            exact = exact and all(n > 0 and n & (n - 1) == 0 for n in cur_shape)     # sticky: round-off is carried on
             cur = step_filter(cur, cur_shape, thr, exact)
         cur = step_filter(cur, cur_shape, thr, exact)      # postprocess filters once more
     else:
@@ -182,7 +186,7 @@ def gen_case(rng):
     elif choice == 'above':
         thr['min_width'] = cw + 0.5
     return {'shape': [H, W, D], 'bboxes': boxes, 'pipeline': specs, 'format': rng.choice(FORMATS),
-            'thresholds': thr, 'each': rng.random() < 0.5, 'seed': rng.randint(0, 10 ** 6)}
+            'thresholds': thr, 'each': rng.random() < 0.5, 'seed': R.pick_seed(rng)}
 
 
 def run(seed=0, tier='quick', hints=None, broken=False):
